@@ -1,2 +1,3 @@
 import CbModel.Preproc
 import CbModel.PreprocSpec
+import CbModel.FlatIndex
